@@ -32,7 +32,7 @@ def spread(k):
 
 def sig(c, kind):
     tc, _ = abstract(c["word"])
-    return "tc=%d:tcp=%s:result=%s" % (tc, c["mode"], kind)
+    return "tc=%d:tcp=%s:result=%s%s" % (tc, c["mode"], kind, ":after-a-failed-tcp-retry-on-the-same-upstream" if c.get("prime") else "")
 
 
 def build_cases(ctx, rng, T):
@@ -58,6 +58,11 @@ def build_cases(ctx, rng, T):
         for tcbit in (0, 0x0200):
             for m in MODES:
                 cases.append({"mode": m, "word": spread(rng.randrange(1 << 15)) | tcbit, "size": s})
+    # history independence: the same upstream has just had a truncated exchange whose TCP retry failed (not recorded);
+    # the recorded exchange must still follow ITS OWN UDP reply (TC => TCP)
+    for k in range(24 if T else 8):
+        for tcbit in (0, 0x0200):
+            cases.append({"mode": "answers", "word": spread(rng.randrange(1 << 15)) | tcbit, "prime": "tcpfail"})
     for i, c in enumerate(cases):
         c["id"] = i
         c.setdefault("size", rng.choice(SIZES))
